@@ -24,6 +24,9 @@ type peerBehaviour struct {
 	// what the sample must carry: HopStatus when the client follows redirects, 302 when it does not
 	Redirect  bool
 	HopStatus int
+	// kind redirect-loop: every arrival is answered 302 + Location: <the same URI>. A client that follows redirects must
+	// give up after a bounded number of hops and report the failed exchange; one that does not reports the 302
+	Loop bool
 	// what the client must see: response headers received? body complete?
 	GotResponse bool
 	BodyOK      bool
@@ -34,7 +37,7 @@ type peerBehaviour struct {
 var peerKinds = []string{
 	"status", "status", "status", "status", "status-close", "close-no-response", "reset-no-response", "partial-headers-close", "partial-headers-reset",
 	"short-body-close", "short-body-reset", "absurd-content-length", "garbage", "bad-chunk", "hang-no-response", "huge-body", "huge-headers", "continue-then-200", "http10-close-delimited",
-	"bad-version", "negative-content-length", "status-999", "no-reason-phrase", "empty-reply-crlf", "stall-then-200", "chunked-ok", "head-like-no-body-204", "status-304-with-length",
+	"bad-version", "negative-content-length", "redirect-loop", "status-999", "no-reason-phrase", "empty-reply-crlf", "stall-then-200", "chunked-ok", "head-like-no-body-204", "status-304-with-length",
 }
 
 func genPeerBehaviour(f *simrt.Stream, faults bool) peerBehaviour {
@@ -81,6 +84,8 @@ func genPeerBehaviour(f *simrt.Stream, faults bool) peerBehaviour {
 		b.Status, b.GotResponse, b.BodyOK = 200, true, false
 	case "hang-no-response":
 		b.GotResponse, b.BodyOK, b.Timeout = false, false, true
+	case "redirect-loop":
+		b.Status, b.Body, b.Loop = 302, 0, true
 	}
 	return b
 }
@@ -95,6 +100,8 @@ func (b peerBehaviour) action() rawAction {
 		return rawAction{Bytes: resp(b.Status, "", body)}
 	case "redirect":
 		return rawAction{Bytes: resp(b.HopStatus, "", body)}
+	case "redirect-loop":
+		return rawAction{Bytes: resp(302, "", nil)} // (the handler adds the Location; this form only tells closesConn)
 	case "status-close":
 		return rawAction{Bytes: resp(b.Status, "Connection: close\r\n", body), Then: "close"}
 	case "close-no-response":
@@ -193,6 +200,9 @@ type httpFaultOutcome struct {
 	Expect  []string    // reference tag per entry
 	Fired   int         // number of shots the profile allows = entries*passes
 	ConnFlt int
+	// Runaway: entries whose redirect loop the client followed for more than 64 hops per shot (the peer then answered
+	// 200 to end the run; net/http's own limit is 10)
+	Runaway []int
 }
 
 var hfPaths = []string{"/", "/a", "/my/very/deep/page", "/a/b", "/index.html", "/api/v1/users/42", "/x/"}
@@ -261,6 +271,10 @@ func genHTTPFaultSpec(r *R, faults bool) httpFaultSpec {
 			if sp.FollowRedirects {
 				bh.Status = bh.HopStatus
 			}
+		}
+		if bh.Loop && sp.FollowRedirects {
+			// the client gives up after its hop limit: a failed exchange (no final response)
+			bh.GotResponse, bh.BodyOK = false, false
 		}
 		sp.Behaviours = append(sp.Behaviours, bh)
 	}
@@ -405,6 +419,16 @@ func runHTTPFaults(r *R, sp httpFaultSpec) *httpFaultOutcome {
 				}
 				if bh := sp.Behaviours[i]; bh.Redirect && !strings.Contains(s.URI, "hop=1") {
 					return rawAction{Kind: "respond", Bytes: []byte("HTTP/1.1 302 Found\r\nLocation: " + s.URI + "&hop=1\r\nContent-Length: 0\r\n\r\n")}
+				}
+				if sp.Behaviours[i].Loop {
+					arrivals[i]++
+					if arrivals[i] > 64*sp.Passes {
+						if arrivals[i] == 64*sp.Passes+1 {
+							out.Runaway = append(out.Runaway, i)
+						}
+						return rawAction{Kind: "respond", Bytes: []byte("HTTP/1.1 200 OK\r\nContent-Length: 0\r\n\r\n")}
+					}
+					return rawAction{Kind: "respond", Bytes: []byte("HTTP/1.1 302 Found\r\nLocation: " + s.URI + "\r\nContent-Length: 0\r\n\r\n")}
 				}
 				return sp.Behaviours[i].action()
 			})
